@@ -240,8 +240,8 @@ func caseTerm(h *Hist) string {
 		}
 	}
 	honestBanned := honest >= 0 && honest < len(res.Final.Banned) && res.Final.Banned[honest]
-	return fmt.Sprintf("(%d, mkNCase %d %s %s\n  %s\n  %s %s %s %s %s)", h.ID, h.ChainLen, c.Bool(h.GrowCount > 0), c.List(lies),
-		c.List(samples), c.List(valid), c.Bool(res.Converged), c.Bool(silentHdr), c.Z(int64(res.Final.HdrTip)), c.Bool(honestBanned))
+	return fmt.Sprintf("(%d, mkNCase %d %s %s\n  %s\n  %s %s %s %s %s %d)", h.ID, h.ChainLen, c.Bool(h.GrowCount > 0), c.List(lies),
+		c.List(samples), c.List(valid), c.Bool(res.Converged), c.Bool(silentHdr), c.Z(int64(res.Final.HdrTip)), c.Bool(honestBanned), res.FinalTip)
 }
 
 // bestBlockTable ties the model's best_block (coq/C04/Spec.v) to the real
@@ -335,6 +335,19 @@ func main() {
 		}(&hs[i])
 	}
 	wg.Wait()
+	// netsim runs on the wall clock: a scenario during which this process
+	// was starved (far fewer 20 ms polls than its duration allows: other
+	// jobs, memory pressure) and which did not converge says nothing about
+	// the client; it is run again, alone.
+	starved := func(r *ns.Result) bool {
+		return r.SetupErr == "" && !r.Converged && r.RunMs > 2000 && float64(r.Polls) < 0.6*float64(r.RunMs)/20
+	}
+	for i := range hs {
+		for try := 0; try < 2 && starved(hs[i].Res); try++ {
+			rep.Histogram["starved-rerun"]++
+			hs[i].Res = ns.RunScenario(&hs[i].Scenario, work)
+		}
+	}
 
 	var sb strings.Builder
 	sb.WriteString("From Coq Require Import ZArith List Bool.\nFrom Verif Require Import C04net.Replay.\nFrom Verif Require C04.Replay.\nImport ListNotations.\nOpen Scope Z_scope.\n")
